@@ -191,6 +191,10 @@ class Serial(Base):
                 return None
             self.sock.next_connect = op[1]
             self.tags.add('timeout-reconnect-' + op[1])
+            # the deadline is 1 s after the request was issued and virtual time only moves in this
+            # operation, so the 1.5 s below reach it whatever call the transaction is blocked in
+            self.tags.add('timeout-silence-at-%s' % ('write' if p.kind == 'write' else
+                                                     'read4' if len(self.cur[2]) > p.arg else 'readN'))
             rt.advance(1.5)
             return 'timeout %s' % op[1]
         if kind == 'close':
